@@ -105,7 +105,7 @@ def build(c):
              ["sub", "M", W.MT_CLIENT_CLOSED], ["sub", "M", W.MT_CLIENT_INFO], ["sub", "M", W.MT_FAILED_MESSAGE],
              ["sub", "S", T], ["drain"]]
     if c.get("tm"):
-        steps += [["sub", "M", W.MT_TIMING], ["drain"]]
+        steps += [["sub", "M", W.MT_TIMING], ["sub", "M", W.MT_ACTIVE_CLIENTS], ["drain"]]
     deps = [("D", 20, "dd", c["d1"])] + ([("E", 21, "ee", c["d2"])] if c.get("d2") else [])
     leaves, excluded = [], []
     for L, idn, name, d in deps:
@@ -147,7 +147,8 @@ def build(c):
     steps += [["pub", "P", T, 0, 0, 8], ["pub", "P", T2, 0, 0, 8], ["pub", "P", T, "@S", 0, 8], ["pub", "P", 999, 0, 0, 0],
               ["drain", {"adv": 0.001}]]
     if c.get("tm"):
-        steps += [["sub", "P", 557], ["round", {"only": ["P"], "adv": 1.5}], ["drain", {"adv": 0.001}]]
+        # (5.5 s: the periodic ACTIVE_CLIENTS list is due as well)
+        steps += [["sub", "P", 557], ["round", {"only": ["P"], "adv": 5.5}], ["drain", {"adv": 0.001}]]
     return steps
 
 
@@ -258,6 +259,18 @@ def judge(sc, c, n_before):
                     break
         else:
             res["inconclusive"] = f"expected three TIMING reports at the monitor, saw {len(tms)}"
+        acs = [f for f in rx["M"]["frames"] if f.msg_type == W.MT_ACTIVE_CLIENTS and f.src_mod == 0 and len(f.payload) == W.S_ACTIVE.size]
+        if acs:
+            u = W.S_ACTIVE.unpack(acs[-1].payload)
+            n = u[1]
+            listed = sorted(x for x in u[4:4 + 256][:max(0, n) + 1] if x)
+            want = sorted(m.mod_id for m in sc.model.mods.values() if m.connected and m.mod_id and not m.fin)
+            C["active_client_lists_checked"] = C.get("active_client_lists_checked", 0) + 1
+            if listed != want:
+                V.append({"mech": "active_clients_lists_departed_or_misses_live",
+                          "detail": f"last ACTIVE_CLIENTS lists module ids {listed} (num_clients {n}); connected modules hold {want}"})
+        else:
+            res["inconclusive"] = "no ACTIVE_CLIENTS report reached the monitor"
     for L, idn, name, d in deps:
         cs = sc.cl[L]
         C["departures"] = C.get("departures", 0) + 1
